@@ -148,3 +148,77 @@ def count_calls_on_paths(f, pred):
                 mn[b] = w + min(v[0] for v in vals)
                 mx[b] = w + max(v[1] for v in vals)
     return (mn.get(0), mx.get(0), marked)
+
+
+GUARDS = {}
+
+
+def guard(name):
+    def deco(fn):
+        GUARDS[name] = fn
+        return fn
+    return deco
+
+
+def guard_holds(ctx, name):
+    """named, machine-checked precondition of a reviewed panic site"""
+    cache = ctx.__dict__.setdefault("_guards", {})
+    from . import guards as _g  # registers the named guards
+    if name not in cache:
+        fn = GUARDS.get(name)
+        try:
+            cache[name] = bool(fn(ctx)) if fn else False
+        except Exception:
+            cache[name] = False
+    return cache[name]
+
+
+def run_panic_inventory(ctx, rid, entries, text, ctx_sensitive=False, kinds=None, fn_floor=0, site_floor=0):
+    """A7. Every reachable panic site must be discharged automatically (folded condition / bound)
+    or carry a reviewed guard argument in tables/panic_sites.json (exact key)."""
+    from ..callgraph import CallGraph
+    from ..panics import inventory
+    prog = ctx.prog
+    if not hasattr(ctx, "_cg"):
+        ctx._cg = CallGraph(prog)
+    cg = ctx._cg
+    ctx.rule(rid, text, floor=site_floor)
+    missing = [e for e in entries if e not in prog.fns]
+    for m in missing:
+        ctx.lost(rid, m)
+    entries = [e for e in entries if e in prog.fns]
+    if not entries:
+        return
+    reviewed = table("panic_sites.json")
+    seen, parent, sites, ext, indirect = inventory(prog, cg, entries, ctx=ctx_sensitive)
+    n_auto = n_rev = n_skipped = 0
+    for s in sites:
+        if kinds and s.cls not in kinds:
+            n_skipped += 1
+            continue
+        f = prog.fns[s.fn]
+        if s.auto:
+            n_auto += 1
+            ctx.ob(rid, s.key, True, "", ctx.where(f, s.line), sample={"site": s.key, "discharged": "auto: " + s.auto})
+            continue
+        if s.key in reviewed:
+            r = reviewed[s.key]
+            g = r.get("requires")
+            if g is None or guard_holds(ctx, g):
+                n_rev += 1
+                ctx.ob(rid, s.key, True, "", ctx.where(f, s.line), sample={"site": s.key, "discharged": "reviewed: " + r["why"] + (" [guard %s verified]" % g if g else "")})
+                continue
+        chain = cg.chain(parent, s.fn)
+        ctx.ob(rid, s.key, False,
+               "reachable panic site without a guard argument: %s %s %s in %s; reached via %s"
+               % (s.kind, s.detail.rsplit("::", 2)[-1] if s.kind == "call" else s.detail, ("(" + s.info + ")") if s.info else "", f["display"],
+                  " -> ".join(x.split("::", 1)[-1] for x in chain[-5:])),
+               ctx.where(f, s.line))
+    if len(seen) < fn_floor:
+        ctx.ob(rid, "reachable-functions-floor", False, "only %d functions reachable from the entry points, floor %d" % (len(seen), fn_floor))
+    stale = [k for k in reviewed if not k.startswith("_") and k.split("|")[0] in seen and k not in {s.key for s in sites}]
+    inv = ctx.extra.setdefault("inventories", {})
+    inv[rid] = {"entries": entries, "reachable_functions": len(seen), "sites": len(sites), "auto_discharged": n_auto,
+                "reviewed": n_rev, "not_judged_here": n_skipped, "kinds_judged": list(kinds) if kinds else "all",
+                "indirect_calls": indirect, "assumed_total_extern_callees": sorted(ext),
+                "reviewed_entries_not_met": stale}
